@@ -39,6 +39,7 @@ const (
 	secIPv4     = 4 << 40
 	secIPv4RT   = 5 << 40
 	secIPv6     = 6 << 40
+	secDateName = 7 << 40
 )
 
 // ---------------------------------------------------------------------------
@@ -395,7 +396,7 @@ func randDate(rnd *rand.Rand, tl [][3]string, buf []byte) []byte {
 func TestC31(t *testing.T) {
 	r := mon.Start(t, "C31")
 	defer r.Finish()
-	r.Rule("dates: mixed-radix enumeration weekday(12: 7 names, case variants, 2 non-names) x day(39: 00-32, non-digits) x month(17) x year set x (h,m,s) boundary set, assembled into the 29-byte IMF-fixdate shape; every byte value at every position of seeded valid dates; seeded random dates with mutations; each compared ParseHTTPDate vs time.Parse(http.TimeFormat). Round trip over every year 0001-9999 (4 boundary instants x 2 nanosecond values) + seeded instants in 3 zones. IPv4: every field value 0-1100 at every position, every byte at every position of 3 base addresses, seeded token grammar; independent dotted-quad rule. IPv6: structured literals x zone forms x port forms + seeded token grammar through URI.Parse (absolute URL and host argument) vs netip.ParseAddr on the address part. distinct = per-section feature vectors (weekday/day/month/year/time class, shape; field count and field classes; literal shape, zone, port); non-trivial = a 29-byte date that has the fixed shape or that either parser accepts / an IP string with 4 fields or a foreign byte / a literal with a colon")
+	r.Rule("dates: mixed-radix enumeration weekday(12: 7 names, case variants, 2 non-names) x day(39: 00-32, non-digits) x month(17) x year set x (h,m,s) boundary set, assembled into the 29-byte IMF-fixdate shape; every three-letter string over the letters of the day names / month names (both cases) in the weekday / month field of a valid date; every byte value at every position of seeded valid dates; seeded random dates with mutations; each compared ParseHTTPDate vs time.Parse(http.TimeFormat). Round trip over every year 0001-9999 (4 boundary instants x 2 nanosecond values) + seeded instants in 3 zones. IPv4: every field value 0-1100 at every position, every byte at every position of 3 base addresses, seeded token grammar; independent dotted-quad rule. IPv6: structured literals x zone forms x port forms + seeded token grammar through URI.Parse (absolute URL and host argument) vs netip.ParseAddr on the address part. distinct = per-section feature vectors (weekday/day/month/year/time class, shape; field count and field classes; literal shape, zone, port); non-trivial = a 29-byte date that has the fixed shape or that either parser accepts / an IP string with 4 fields or a foreign byte / a literal with a colon")
 	r.Assume("time.Parse, net/netip.ParseAddr and Time.Truncate are correct; the fast date parser is not directly reachable: 'fast parser answered' is recognised by the result's zone name (GMT fixed zone vs UTC from time.Parse), used for counting only")
 	r.Assume("URI literals containing '/', '?', '#', '@', '[' or ']' inside the brackets are not generated (they change where the authority ends); an invalid port after ']' makes rejection legitimate; a valid *zoned* literal being rejected is counted, not judged (the property only demands zone-less ones to be accepted)")
 	walls := map[string]float64{}
@@ -437,6 +438,45 @@ func TestC31(t *testing.T) {
 	})
 	lap("date_enumeration")
 
+	// --- A2: every three-letter string over the letters of the day names (both cases) in the weekday
+	// field and over the letters of the month names in the month field of a valid date: a name table
+	// or switch that accepts a mixture of real names ("Tuu", "The", "Jul"/"Jun" crossings) shows here.
+	alpha := func(names []string) []byte {
+		seen := map[byte]bool{}
+		var out []byte
+		for _, nm := range names {
+			for _, c := range []byte(strings.ToLower(nm) + strings.ToUpper(nm)) {
+				if !seen[c] {
+					seen[c] = true
+					out = append(out, c)
+				}
+			}
+		}
+		return out
+	}
+	wdA := alpha([]string{"Mon", "Tue", "Wed", "Thu", "Fri", "Sat", "Sun"})
+	moA := alpha([]string{"Jan", "Feb", "Mar", "Apr", "May", "Jun", "Jul", "Aug", "Sep", "Oct", "Nov", "Dec"})
+	nWd, nMo := len(wdA)*len(wdA)*len(wdA), len(moA)*len(moA)*len(moA)
+	r.Set("date_name_enumeration", map[string]int{"weekday_alphabet": len(wdA), "month_alphabet": len(moA), "total": nWd + nMo})
+	blocks(r, secDateName, nWd+nMo, 4096, func(a *agg, bi, lo, hi int) {
+		s := make([]byte, 29)
+		for i := lo; i < hi; i++ {
+			if !r.Want(secDateName + i) {
+				continue
+			}
+			copy(s, "Mon, 02 Jan 2006 15:04:05 GMT")
+			al, at, j := wdA, 0, i
+			if i >= nWd {
+				al, at, j = moA, 8, i-nWd
+			}
+			s[at], s[at+1], s[at+2] = al[j%len(al)], al[j/len(al)%len(al)], al[j/len(al)/len(al)]
+			checkDate(r, a, "name", secDateName+i, s)
+			r.Event("date_names_enumerated", 1)
+		}
+	})
+	r.Require("date_names_enumerated", nWd+nMo)
+	lap("date_name_enumeration")
+
 	// --- B: every byte value at every position of valid dates
 	nBase := r.N(150, 3000)
 	blocks(r, secDatePert, nBase*29*256, 29*256, func(a *agg, bi, lo, hi int) {
@@ -470,7 +510,7 @@ func TestC31(t *testing.T) {
 		}
 	})
 	lap("date_random")
-	r.Require("dates_compared", total+nBase*29*256+nRand)
+	r.Require("dates_compared", total+nBase*29*256+nRand+nWd+nMo)
 	r.Require("fast_parser_answered", total/100)
 	r.Require("stdlib_rejects", total/10)
 
